@@ -4171,10 +4171,36 @@ bool NifFile::DeleteVertsForShape(NiShape* shape, const std::vector<uint16_t>& i
 
 	auto geomData = hdr.GetBlock<NiTriBasedGeomData>(shape->DataRef());
 	if (geomData) {
+		// The segments of a BSSegmentedTriShape are ranges of the triangle list that is about to shrink
+		auto segmentShape = dynamic_cast<BSSegmentedTriShape*>(shape);
+		std::vector<Triangle> oldTris;
+		if (segmentShape)
+			geomData->GetTriangles(oldTris);
+
 		geomData->notifyVerticesDelete(indices);
 		if (geomData->GetNumVertices() == 0 || geomData->GetNumTriangles() == 0) {
 			// Deleted all verts or tris
 			allVertsDeleted = true;
+		}
+
+		if (segmentShape) {
+			// Number of surviving triangles in front of each old triangle index
+			auto isDeleted = [&indices](uint16_t v) { return std::find(indices.begin(), indices.end(), v) != indices.end(); };
+			std::vector<uint32_t> kept(oldTris.size() + 1, 0);
+			for (size_t t = 0; t < oldTris.size(); t++) {
+				bool gone = isDeleted(oldTris[t].p1) || isDeleted(oldTris[t].p2) || isDeleted(oldTris[t].p3);
+				kept[t + 1] = kept[t] + (gone ? 0 : 1);
+			}
+
+			// Re-fit the segments to the triangles that are left
+			auto segments = segmentShape->GetSegments();
+			for (auto& segment : segments) {
+				size_t first = std::min<size_t>(segment.index / 3, oldTris.size());
+				size_t last = std::min<size_t>(first + segment.numTris, oldTris.size());
+				segment.index = kept[first] * 3;
+				segment.numTris = kept[last] - kept[first];
+			}
+			segmentShape->SetSegments(segments);
 		}
 	}
 
